@@ -49,13 +49,18 @@ def dump_mir(features=''):
             os.replace(tmp, out)
         finally:
             shutil.rmtree(scratch, ignore_errors=True)
-        # keep the cache small: drop dumps of other trees that have not been used for an hour (a concurrent check of another tree may still read its dump)
-        keep = {os.path.basename(out)}
-        for f in sorted(os.listdir(os.path.join(CACHE, 'mir'))):
+        # keep the cache small: other trees' dumps are dropped once they have not been used for 10 minutes (a concurrent check of another tree may
+        # still be reading its dump), and never more than 8 of them are kept
+        keep = {os.path.basename(out)}; others = []
+        for f in os.listdir(os.path.join(CACHE, 'mir')):
             fp = os.path.join(CACHE, 'mir', f)
             if f.endswith('.mir') and f not in keep and not f.startswith(h):
-                try:
-                    if time.time() - os.path.getmtime(fp) > 3600: os.remove(fp)
+                try: others.append((os.path.getmtime(fp), fp))
+                except OSError: pass
+        others.sort(reverse=True)
+        for i, (mt, fp) in enumerate(others):
+            if time.time() - mt > 600 or i >= 8:
+                try: os.remove(fp)
                 except OSError: pass
         return out, h, time.time() - t0
     finally:
